@@ -83,6 +83,12 @@ H("C06", file="core/pretty_decimal.rs", name="c07_overflow_39_41", timeout=900,
   bound="38 nines + 1..3 symbolic characters from [0-9.]; unwind 50", models=[FMT],
   oracle="rejected without arithmetic overflow")
 
+H("C06", file="core/book_keeping.rs", name="c01_residual_2", timeout=1500, expect_s=250,
+  functions=["check_balance (division sites a2/a1, a1/a2)", "Amount::maybe_pair"],
+  bound="residual over 2 commodities, 16-bit mantissas, both signs, zeros, symbolic map order; unwind 6",
+  models=[FMT, DEC, MAPND, BUMP, "PriceRepositoryBuilder::insert_price -> asserting recorder"],
+  oracle="no division by zero / panic on any residual (Kani's built-in checks + verif_dec's zero-divisor panic), in addition to C01's oracle")
+
 # --------------------------------------------------------------------------- C14
 prop("C14", title="Diagnostics name the right file and line",
      level_text="Bounded model checking of the offset/line arithmetic behind every diagnostic: compute_line_number on every "
@@ -180,7 +186,7 @@ prop("C04", title="Reported balances equal the sum of the register, over any dat
      level_text="Bounded model checking of the two mechanisms the balance report is made of: DateRange::contains is exactly [start, end) "
                 "for EVERY representable date and optional bounds, adjacent ranges partition their union (so range reports add up); and the "
                 "fold step bal.add_amount(account, amount) of the re-fold is per-commodity addition from an arbitrary account balance over two "
-                "commodities with no zero entry kept. The whole Ledger::balance on a two-transaction ledger with symbolic dates/range is a "
+                "commodities with no zero entry kept; likewise the assignment step Balance::set_partial that writes the incrementally kept (raw) balance. The whole Ledger::balance on a two-transaction ledger with symbolic dates/range is a "
                 "thorough-tier harness. RegisterCmd's running total (inline in a function doing file I/O and printing) and rounding to "
                 "declared precision are outside.",
      level_note="Trusted: Kani/CBMC; verif_map (capacity 2), verif_dec; static interned names; price conversion cut out of the balance harness "
@@ -193,6 +199,11 @@ H("C04", file="core/query.rs", name="c04_add_amount_kernel", timeout=900, expect
   functions=["Balance::add_amount", "Amount::add_assign", "Amount::remove_zero_entries", "Amount::from_values"],
   bound="pre-balance a X + b Y, added amount v X [+ w Y]; 16-bit signed values; unwind 6", models=[DEC, MAP],
   oracle="result == per-commodity sum; entry present iff the sum is non-zero")
+H("C04", file="core/query.rs", name="c04_set_partial_kernel", timeout=900, expect_s=80, map_cap=2,
+  functions=["Balance::set_partial", "Amount::set_partial", "TryFrom<&Amount> for PostingAmount"],
+  bound="pre-balance a X + b Y, assignment `= e X` (e may be zero) or bare `= 0`; 16-bit signed values; unwind 6", models=[DEC, MAP],
+  oracle="returned previous value == a; account left at e X with Y untouched; entry present iff non-zero (the incrementally kept "
+         "balance never shows a zero commodity, so it agrees with the re-fold); `= 0` empties a <= 1-commodity account, Err on two")
 H("C04", file="core/query.rs", name="c04_balance_range_1", tier="thorough", timeout=3000, expect_s=1500, map_cap=2, mem_gb=30,
   functions=["Ledger::balance (recompute path)", "DateRange::contains", "Balance::add_amount", "Balance::round"],
   bound="ledger T1(day d1): A v1 X; T2(day d2): A v2 X; d1,d2,start,end in an 8 day window, bounds optional; unwind 4",
@@ -273,8 +284,10 @@ prop("C12", title="Aliases are transparent; alias conflicts are rejected",
                 "operations (4 in thorough) drawn from ensure / insert_canonical / insert_alias(to a canonical handed out earlier) / resolve "
                 "over a 3-name pool, each return value and error equals a reference alias table; alias and canonical name yield the SAME "
                 "interned value (pointer identity, which is what balances are keyed by), a name is never interned twice, and the two conflict "
-                "declarations are rejected. All orders of declaration versus first use within the bound are covered. Feeding a whole ledger "
-                "with aliases through add_transaction is outside (does not fit the solver).",
+                "declarations are rejected. All orders of declaration versus first use within the bound are covered. The call site, "
+                "ProcessAccumulator::process on an `account a / alias b` or `commodity a / alias b` declaration, is run after every subset of "
+                "{a, b} was already in use: the alias is registered also when the canonical name was used first, and a conflicting alias is "
+                "rejected. Feeding whole transactions with aliases through add_transaction is outside (does not fit the solver).",
      level_note="Trusted: Kani/CBMC; verif_map (keys compared by content, as the real map), bump allocator stub.")
 H("C12", file="core/intern.rs", name="c12_intern_sequence_3", timeout=900, expect_s=80,
   functions=["InternStore::ensure", "InternStore::insert_canonical", "InternStore::insert_alias", "InternStore::resolve", "InternStore::get"],
@@ -344,6 +357,9 @@ H("C13", file="core/amount.rs", name="c08_single_amount_required", timeout=900, 
 H("C13", file="core/book_keeping.rs", name="c01_residual_2", timeout=1500, expect_s=220,
   functions=["check_balance", "Amount::maybe_pair"], bound="2-commodity residual, symbolic iteration order", models=[DEC, MAPND, FMT, BUMP],
   oracle="verdict and recorded price satisfy an order-free predicate for every order")
+H("C13", file="core/book_keeping.rs", name="c01_residual_3", timeout=1500, expect_s=220,
+  functions=["check_balance", "Amount::maybe_pair", "Amount::iter"], bound="3-commodity residual (zeros included), symbolic iteration order", models=[DEC, MAPND, FMT, BUMP],
+  oracle="a residual with three non-zero totals is rejected for every order; verdict order-free")
 H("C13", file="core/book_keeping.rs", name="c03_deduce_kernel", timeout=1500, expect_s=190, map_cap=2,
   functions=["Amount::negate", "Balance::add_amount"], bound="symbolic iteration order", models=[DEC, MAPND], oracle="order-free values")
 
@@ -365,3 +381,110 @@ H("C14", file="core/adaptor.rs", name="c14_parsed_context_8", timeout=600, expec
   functions=["ParsedContext::compute_line_start", "ParsedContext::as_str", "ParsedContext::span", "ParsedSpan::resolve", "clip"],
   bound="every ASCII text (CR and LF included) of 0..=8 bytes, entry span s..e, tracked item span inside it; unwind 10", models=[FMT],
   oracle="line_start == 1 + newlines before the entry's first byte; text == the entry's slice; resolve == item - entry start")
+
+
+# --------------------------------------------------------------------------- C09
+HEAP = "std BinaryHeap -> verif_heap (std's sift algorithm on a fixed array, capacity 2)"
+SORT = "core::slice::sort::unstable::sort -> insertion sort with the caller's comparison"
+PT_LOOPS = {"compute_price_table": {"1": 6, "0": 3}, "binary_search_by": {"0": 2}}
+prop("C09", title="Commodity conversion uses the right price",
+     level_text="Bounded model checking of the price store and the rate search, below the date sort of build_naive: (1) insert_price "
+                "stores every usable event in both directions (reciprocal), nothing for a zero-sided event, a price-database price replaces "
+                "ledger-derived prices of the same pair and is never replaced by one; (2) Distance's ordering and extend are exactly "
+                "(ledger-derived steps, steps, staleness of the stalest price) for every pair of distances; (3) the real compute_price_table "
+                "on one pair with two dated prices and a symbolic query day uses the most recent price on or before that day, none if all "
+                "are later; (4) on three commodities with a direct price and a two-step chain (symbolic sources, dates, rates, query day) "
+                "it picks the chain the statement ranks first, multiplies the rates along it, and finds no rate when no usable chain "
+                "exists. Outside: the sort of same-pair records by date in build_naive, parsing of the price DB, more than two steps / "
+                "competing chains of equal length (staleness as the deciding criterion is covered only through Distance's ordering), "
+                "reverse edges in the search graph, Ledger::eval's plumbing.",
+     level_note="Trusted: Kani/CBMC; verif_map (capacity 2), verif_heap, verif_dec (products exact; quotients exact when exact), insertion-sort "
+                "model; records are constructed directly in the shape build_naive leaves them; loop bounds of compute_price_table given per "
+                "loop with unwinding assertions on.")
+H("C09", file="core/price_db.rs", name="c09_insert_price", timeout=900, expect_s=40, map_cap=2,
+  functions=["PriceRepositoryBuilder::insert_price", "insert_impl"],
+  bound="one event x X = y Y, 8-bit values incl. zero, either source; unwind 6", models=[DEC, MAP, FMT, BUMP],
+  oracle="zero side => nothing stored, no panic; else one rate per direction, same date and source, positive, y/x and x/y when exact")
+H("C09", file="core/price_db.rs", name="c09_source_precedence", timeout=900, expect_s=125, map_cap=2,
+  functions=["PriceRepositoryBuilder::insert_price", "insert_impl"],
+  bound="ledger price then price-db price for the same pair (8-bit rates); unwind 6", models=[DEC, MAP, FMT, BUMP],
+  oracle="both directions marked PriceDB and hold exactly one rate")
+H("C09", file="core/price_db.rs", name="c09_source_keep_db", timeout=900, expect_s=80, map_cap=2,
+  functions=["PriceRepositoryBuilder::insert_price", "insert_impl"],
+  bound="price-db price then ledger price for the same pair; unwind 6", models=[DEC, MAP, FMT, BUMP],
+  oracle="the pair stays PriceDB-sourced in both directions")
+H("C09", file="core/price_db.rs", name="c09_source_precedence_value", tier="thorough", timeout=1500, expect_s=210, map_cap=2, mem_gb=12,
+  functions=["PriceRepositoryBuilder::insert_price", "insert_impl"],
+  bound="ledger price then price-db price; reads the surviving record back; unwind 6",
+  models=[DEC, MAP, FMT, BUMP, "global allocator -> fixed 256-byte blocks (verif_alloc)"],
+  oracle="the one surviving record carries the price-db date")
+H("C09", file="core/price_db.rs", name="c09_distance_order", timeout=600, expect_s=20,
+  functions=["Distance::cmp/partial_cmp/eq (derived)", "Distance::extend", "WithDistance ordering impls"],
+  bound="every pair of distances with 8-bit components, every extension (source, 8-bit staleness in days); unwind 4", models=[DEC],
+  oracle="lexicographic (ledger steps, steps, staleness); extend: +1 ledger step only for a ledger source, +1 step, max staleness")
+H("C09", file="core/price_db.rs", name="c09_asof_direct", timeout=1500, expect_s=230, map_cap=2, env={"VERIF_HEAP_CAP": 2},
+  loops={"compute_price_table": {"1": 4, "0": 3}},
+  functions=["NaivePriceRepository::compute_price_table", "slice::partition_point", "Distance::extend"],
+  bound="one pair, two records on distinct days of an 8-day window, query day in the window, 8-bit rates, either source; "
+        "search loop <= 3 pops, neighbour loop <= 2", models=[DEC, MAP, HEAP, SORT, FMT, BUMP],
+  oracle="rate == latest record dated <= query day; none when both are later; T in T absent or 1")
+H("C09", file="core/price_db.rs", name="c09_chain_3", timeout=2400, expect_s=540, map_cap=2, mem_gb=12, env={"VERIF_HEAP_CAP": 2},
+  loops=PT_LOOPS,
+  functions=["NaivePriceRepository::compute_price_table", "slice::partition_point", "Distance::extend", "WithDistance ordering", "Decimal * (model)"],
+  bound="commodities X, M, T; prices X-in-T, M-in-T, X-in-M each with symbolic source, day (0..3) and 6-bit rate; query day 0..3; "
+        "search loop <= 5 pops, neighbour loop <= 2, binary search <= 1 step", models=[DEC, MAP, HEAP, SORT, FMT, BUMP],
+  oracle="only prices dated <= query day count; direct vs chain ranked by (ledger-derived steps, steps); chain rate = product; "
+         "no usable chain => no rate")
+
+# --------------------------------------------------------------------------- C16
+prop("C16", title="CSV import books each row with the right sign, amount and balance",
+     level_text="Bounded model checking of the two places a CSV row's figures are turned into postings: (1) FieldMap::amount - credit "
+                "column positive, debit column negative, an `amount` column negated for a liability account, neither column / not a "
+                "number rejected - with the number parser replaced by a stub returning solver-chosen decimals; (2) the real "
+                "Txn::to_double_entry / add_rate / dest_amount for every amount and sign: the configured account moves by the row's "
+                "amount, the counter-posting carries the opposite amount or the secondary amount with the opposite sign, the stated rate is "
+                "attached exactly to the postings in the commodity it prices, the account posting comes first for credits and last for "
+                "debits, a running balance becomes an assertion on the account posting only, unmatched rows go to Income:/Expenses:Unknown "
+                "and are pending. Outside: the csv reader and header mapping (FieldMap::try_new), template-valued fields, the conversion "
+                "block of csv::import (rate-key direction, computed amount), row_order reversal, charges, and the book-keeping round trip.",
+     level_note="Trusted: Kani/CBMC; fmt::format stub; str_to_comma_decimal stub (winnow parser not solver-reachable) and Template lookup cut; "
+                "verif_map for Txn.rates; names identified by length within a pool of distinct lengths; values compared as (mantissa, scale).")
+H("C16", file="cli/single_entry.rs", name="c16_double_entry_plain", timeout=1200, expect_s=110, map_cap=2,
+  functions=["Txn::to_double_entry", "Txn::amount", "Txn::dest_amount", "Txn::to_posting_amount", "as_syntax_amount"],
+  bound="amount 16-bit at scale 2, either sign (zero: no-crash only); counter account set or not; clear state unset/pending/cleared; "
+        "running balance present or not (16-bit signed); unwind 6", models=[FMT, MAP],
+  oracle="written from the statement: see level text")
+H("C16", file="cli/single_entry.rs", name="c16_double_entry_conversion", timeout=1200, expect_s=125, map_cap=2,
+  functions=["Txn::to_double_entry", "Txn::dest_amount", "amount_with_sign", "Txn::rate", "Txn::add_rate"],
+  bound="as c16_double_entry_plain plus secondary amount present or not (16-bit, either sign as extracted) and a rate keyed on the "
+        "primary or the secondary commodity; unwind 6", models=[FMT, MAP],
+  oracle="secondary amount with sign opposite to the account posting; rate attached to the commodity it prices and nowhere else")
+H("C16", file="cli/single_entry.rs", name="c16_add_rate", timeout=1200, expect_s=180,
+  functions=["Txn::add_rate"], bound="two add_rate calls, 16-bit rates; unwind 6", models=[FMT, MAP],
+  oracle="rate of a commodity in itself rejected; second distinct rate for one commodity rejected, identical one accepted")
+CSVM = [FMT, "str_to_comma_decimal -> marker-to-value stub", "MappedRecord::query -> assume(false) (template fields outside)",
+        "csv::StringRecord::get -> table of the harness's column texts (building a real record does not fit the solver)"]
+H("C16", file="cli/csv.rs", name="c16_amount_credit_debit", timeout=1200, expect_s=200, mem_gb=12,
+  functions=["FieldMap::amount", "FieldMap::resolve"],
+  bound="records (credit, debit) in {(n,''),('',n)} with 16-bit signed values; asset/liability; unwind 6",
+  models=CSVM, oracle="+credit / -debit")
+H("C16", file="cli/csv.rs", name="c16_amount_rejected", timeout=1200, expect_s=200, mem_gb=12,
+  functions=["FieldMap::amount", "FieldMap::resolve"],
+  bound="records (credit, debit) in {('',''),(junk,''),('',junk)}; asset/liability; unwind 6",
+  models=CSVM, oracle="Err in all three")
+H("C16", file="cli/csv.rs", name="c16_amount_column", timeout=1200, expect_s=190, mem_gb=12,
+  functions=["FieldMap::amount", "FieldMap::resolve"],
+  bound="amount column in {n, junk, ''} with a 16-bit signed value; asset/liability; unwind 6",
+  models=CSVM,
+  oracle="asset: amount; liability: -amount; junk: Err")
+
+H("C12", file="core/book_keeping.rs", name="c12_declare_account", timeout=1200, expect_s=105, map_cap=3,
+  functions=["ProcessAccumulator::process (Account arm)", "InternStore::insert_canonical", "InternStore::insert_alias", "InternStore::ensure"],
+  bound="declaration `account a [alias b]` processed after every subset of {a, b} was already used as a plain name; unwind 6",
+  models=[DEC, MAP, FMT, BUMP, "add_transaction -> assume(false) (transactions outside)"],
+  oracle="Err iff b is to become an alias although already canonical; otherwise a keeps its identity, b resolves to a iff declared an alias")
+H("C12", file="core/book_keeping.rs", name="c12_declare_commodity", timeout=1200, expect_s=140, map_cap=3,
+  functions=["ProcessAccumulator::process (Commodity arm)", "InternStore::insert_canonical", "InternStore::insert_alias", "CommodityStore::ensure"],
+  bound="declaration `commodity a [alias b]` after every subset of {a, b} was already used; unwind 6",
+  models=[DEC, MAP, FMT, BUMP, "add_transaction -> assume(false) (transactions outside)"],
+  oracle="same as c12_declare_account")
